@@ -34,6 +34,8 @@ pub struct L2Cfg {
     pub max_states: usize,
     pub deadline: std::time::Instant,
     pub seed: u64,
+    /// offer every single-input step also in the variant "crashes at its first durable write, write lost"
+    pub crashes: bool,
     /// violation classes of `check_state` that this run does not report (they belong to another
     /// property's check, which runs the same search)
     pub ignore: &'static [&'static str],
@@ -44,6 +46,7 @@ pub struct Sys {
     pub z: usize,
     pub correct: Vec<usize>,
     pub max_view: u64,
+    pub crashes: bool,
 }
 
 #[derive(Clone, PartialEq, Eq, Hash, Debug)]
@@ -144,13 +147,16 @@ pub struct Action {
     pub inputs: Vec<LInput>,
     pub restart: bool,
     pub key: u64,
+    /// the process dies at the first durable write of this step and the write is lost; whatever
+    /// was already handed to the network has left the node
+    pub crash_lost: bool,
 }
 
 pub fn system(cfg: &L2Cfg) -> Sys {
     let c = util::committee(cfg.seed, &cfg.weights);
     assert_eq!(c.weights[cfg.faulty], 1, "the faulty validator must have weight 1");
     let correct: Vec<usize> = (0..c.n()).filter(|i| *i != cfg.faulty).collect();
-    Sys { w: World { c, proposals: vec![Payload(vec![0x58]), Payload(vec![0x59, 1])], invalid_payload: Payload(vec![0xBA, 0xD0]) }, z: cfg.faulty, correct, max_view: cfg.max_view }
+    Sys { w: World { c, proposals: vec![Payload(vec![0x58]), Payload(vec![0x59, 1])], invalid_payload: Payload(vec![0xBA, 0xD0]) }, z: cfg.faulty, correct, max_view: cfg.max_view, crashes: cfg.crashes }
 }
 
 /// Certificates the adversary can derive from the pool (plus its own key).
@@ -364,7 +370,7 @@ fn actions_uncached(sys: &Sys, t: &Tables, g: &G, only: usize) -> Vec<Action> {
         for id in &g.pool {
             let mi = &t.msgs[*id as usize];
             if (mi.kind == 0 || mi.kind == 3) && mi.view >= view && mi.view <= sys.max_view + 1 {
-                out.push(Action { replica: ri, desc: format!("v{vi} receives {}", mi.desc), inputs: vec![LInput::Pool(*id)], restart: false, key: 0 });
+                out.push(Action { replica: ri, desc: format!("v{vi} receives {}", mi.desc), inputs: vec![LInput::Pool(*id)], restart: false, key: 0, crash_lost: false });
             }
         }
         // 2. commit quorums (generous candidates: weight >= n - 2f)
@@ -389,7 +395,7 @@ fn actions_uncached(sys: &Sys, t: &Tables, g: &G, only: usize) -> Vec<Action> {
                 if with_z {
                     inputs.push(LInput::ZCommit(vote.clone()));
                 }
-                out.push(Action { replica: ri, desc: format!("v{vi} collects commit votes {a:?} from {:?}{} (weight {tw}, quorum {q})", signers.iter().map(|x| x.0).collect::<Vec<_>>(), if with_z { " + faulty" } else { "" }), inputs, restart: false, key: 0 });
+                out.push(Action { replica: ri, desc: format!("v{vi} collects commit votes {a:?} from {:?}{} (weight {tw}, quorum {q})", signers.iter().map(|x| x.0).collect::<Vec<_>>(), if with_z { " + faulty" } else { "" }), inputs, restart: false, key: 0, crash_lost: false });
             }
         }
         // 3. timeout quorums
@@ -430,17 +436,17 @@ fn actions_uncached(sys: &Sys, t: &Tables, g: &G, only: usize) -> Vec<Action> {
                         inputs.push(LInput::ZTimeout(zv.clone()));
                         zdesc = format!(" + faulty(high_vote {:?}, high_qc {:?})", zv.high_vote.as_ref().map(avote), zv.high_qc.as_ref().map(acqc));
                     }
-                    out.push(Action { replica: ri, desc: format!("v{vi} collects timeout votes of view {v} from {:?}{zdesc} (weight {tw}, quorum {q})", c.iter().map(|x| (x.0, x.1)).collect::<Vec<_>>()), inputs, restart: false, key: 0 });
+                    out.push(Action { replica: ri, desc: format!("v{vi} collects timeout votes of view {v} from {:?}{zdesc} (weight {tw}, quorum {q})", c.iter().map(|x| (x.0, x.1)).collect::<Vec<_>>()), inputs, restart: false, key: 0, crash_lost: false });
                 }
             }
         }
         // 4. timer
-        out.push(Action { replica: ri, desc: format!("v{vi}: view timer fires"), inputs: vec![LInput::Ready(Input::Timeout)], restart: false, key: 0 });
+        out.push(Action { replica: ri, desc: format!("v{vi}: view timer fires"), inputs: vec![LInput::Ready(Input::Timeout)], restart: false, key: 0, crash_lost: false });
         // 5. own proposer
         if w.leader(view) == vi && l.snap.phase == v2::Phase::Prepare {
             if let Some(j) = justification_of(l) {
                 if j.view().number.0 == view {
-                    out.push(Action { replica: ri, desc: format!("v{vi}: proposer runs for view {view}"), inputs: vec![LInput::Ready(Input::Propose(j))], restart: false, key: 0 });
+                    out.push(Action { replica: ri, desc: format!("v{vi}: proposer runs for view {view}"), inputs: vec![LInput::Ready(Input::Propose(j))], restart: false, key: 0, crash_lost: false });
                 }
             }
         }
@@ -448,11 +454,11 @@ fn actions_uncached(sys: &Sys, t: &Tables, g: &G, only: usize) -> Vec<Action> {
         let next = w.c.genesis.first_block.0 + l.blocks.len() as u64;
         if let Some(bs) = avail_blocks.get(&next) {
             for b in bs {
-                out.push(Action { replica: ri, desc: format!("v{vi}: block sync delivers block {next} ({:x})", bftmsgs::ph(&b.payload.hash())), inputs: vec![LInput::Ready(Input::Sync(b.clone()))], restart: false, key: 0 });
+                out.push(Action { replica: ri, desc: format!("v{vi}: block sync delivers block {next} ({:x})", bftmsgs::ph(&b.payload.hash())), inputs: vec![LInput::Ready(Input::Sync(b.clone()))], restart: false, key: 0, crash_lost: false });
             }
         }
         // 7. restart
-        out.push(Action { replica: ri, desc: format!("v{vi} restarts"), inputs: vec![], restart: true, key: 0 });
+        out.push(Action { replica: ri, desc: format!("v{vi} restarts"), inputs: vec![], restart: true, key: 0, crash_lost: false });
         let tz = std::time::Instant::now();
         // 8. the faulty validator's own messages: proposals for views it leads, new-views
         let mut justs: Vec<(String, v2::ProposalJustification)> = d.cqcs.iter().map(|(n, c)| (n.clone(), v2::ProposalJustification::Commit(c.clone()))).collect();
@@ -464,11 +470,11 @@ fn actions_uncached(sys: &Sys, t: &Tables, g: &G, only: usize) -> Vec<Action> {
             }
             if w.leader(jv) == sys.z {
                 for (pn, p) in [("no payload", None), ("payload X", Some(px.clone())), ("payload Y", Some(py.clone()))] {
-                    out.push(Action { replica: ri, desc: format!("v{vi} receives the faulty leader's proposal for view {jv} [{jn}, {pn}]"), inputs: vec![LInput::ZProposal(j.clone(), p)], restart: false, key: 0 });
+                    out.push(Action { replica: ri, desc: format!("v{vi} receives the faulty leader's proposal for view {jv} [{jn}, {pn}]"), inputs: vec![LInput::ZProposal(j.clone(), p)], restart: false, key: 0, crash_lost: false });
                 }
             }
             if jv > view {
-                out.push(Action { replica: ri, desc: format!("v{vi} receives a new-view for view {jv} from the faulty validator [{jn}]"), inputs: vec![LInput::ZNewView(j.clone())], restart: false, key: 0 });
+                out.push(Action { replica: ri, desc: format!("v{vi} receives a new-view for view {jv} from the faulty validator [{jn}]"), inputs: vec![LInput::ZNewView(j.clone())], restart: false, key: 0, crash_lost: false });
             }
         }
         T_ZMSG.fetch_add(tz.elapsed().as_micros() as u64, std::sync::atomic::Ordering::Relaxed);
@@ -481,6 +487,14 @@ fn actions_uncached(sys: &Sys, t: &Tables, g: &G, only: usize) -> Vec<Action> {
     // the same content may be offered under several labels: keep one
     let mut seen_keys: HashSet<(usize, u64)> = HashSet::new();
     out.retain(|a| seen_keys.insert((a.replica, a.key)));
+    if sys.crashes {
+        let variants: Vec<Action> = out
+            .iter()
+            .filter(|a| !a.restart && a.inputs.len() == 1 && !matches!(a.inputs[0], LInput::Ready(Input::Sync(_)) | LInput::Ready(Input::Propose(_))))
+            .map(|a| Action { replica: a.replica, desc: format!("{} -- CRASH at its first durable write (write lost)", a.desc), inputs: a.inputs.clone(), restart: false, key: a.key ^ 0xC4A5_4C05_7000_0001, crash_lost: true })
+            .collect();
+        out.extend(variants);
+    }
     T_KEY.fetch_add(tk.elapsed().as_micros() as u64, std::sync::atomic::Ordering::Relaxed);
     out
 }
@@ -540,7 +554,8 @@ fn execute(sys: &Sys, t: &Tables, local: &Local, vi: usize, a: &Action, sync_poo
     for linp in &a.inputs {
         let inp = &materialise(sys, t, linp);
         let before = local.blocks.clone();
-        let out = bftsim::step(&sys.w, vi, &local, inp, &Policy { crash: None, sync: sync_pool.to_vec() });
+        let crash = a.crash_lost.then_some(bftsim::Crash { at: 0, applied: false });
+        let out = bftsim::step(&sys.w, vi, &local, inp, &Policy { crash, sync: sync_pool.to_vec() });
         steps += 1;
         sent_msgs.extend(out.sent.iter().cloned());
         flags.blocked |= out.blocked;
